@@ -662,7 +662,7 @@ func main() {
 	must(err)
 	tw, err := trace.New(*tracePath, *chunk)
 	must(err)
-	d := &drv{sum: &summary{Families: map[string]int{}, Outcomes: map[string]int{}, Panics: map[string]int{}}}
+	d := &drv{sum: &summary{Families: map[string]int{}, Outcomes: map[string]int{}, Panics: map[string]int{}, Samples: []any{}}}
 	sampled := map[string]bool{}
 	for i, raw := range raws {
 		var sc struct {
@@ -696,7 +696,7 @@ func main() {
 		tw.Emit(ev)
 		d.sum.Vectors++
 		d.sum.Families[hd.Fam]++
-		if !sampled[hd.Fam] && i%7 == 3 {
+		if !sampled[hd.Fam] && (i%7 == 3 || len(raws) < 50) {
 			sampled[hd.Fam] = true
 			d.sum.Samples = append(d.sum.Samples, ev)
 		}
